@@ -61,8 +61,10 @@ Lemma random_floats_safe (P : val -> Prop) lo hi :
   (lo <= hi)%Q -> (forall v, is_float_in lo hi v -> P v) -> Safe P (random_floats lo hi).
 Proof.
   intros Hl HP. unfold random_floats.
-  assert (Hb : Safe P (GReal lo hi (fun q => GYield (vfloat q) GStop))).
-  { constructor. intros q [[H1 H2]|H]; [|exfalso; lra]. constructor; [|constructor]. apply HP. exists q. auto. }
+  assert (Hb : Safe P (if Qle_bool hi lo then GYield (vfloat lo) GStop else GReal lo hi (fun q => GYield (vfloat q) GStop))).
+  { destruct (Qle_bool hi lo).
+    - constructor; [|constructor]. apply HP. exists lo. repeat split; [apply Qle_refl|exact Hl].
+    - constructor. intros q [[H1 H2]|H]; [|exfalso; lra]. constructor; [|constructor]. apply HP. exists q. auto. }
   constructor. constructor; [apply HP; exists lo; repeat split; [apply Qle_refl|exact Hl]|].
   constructor; [apply HP; exists hi; repeat split; [exact Hl|apply Qle_refl]|]. constructor; exact Hb.
 Qed.
